@@ -3,7 +3,6 @@ package interp
 // Cooperative deterministic goroutine scheduler, channels and timers.
 
 import (
-	"os"
 	"fmt"
 	"go/token"
 	"go/types"
@@ -344,9 +343,6 @@ func (s *scheduler) yieldPoint(g *gor, what string) {
 					timerPending = true
 				}
 			}
-		}
-		if os.Getenv("GOSYM_DEBUG") != "" {
-			fmt.Fprintf(os.Stderr, "yieldPoint g%d %s rs=%d timerPending=%v timers=%d\n", g.id, what, len(rs), timerPending, len(s.timers))
 		}
 		if len(rs) <= 1 && !timerPending && len(externals) == 0 {
 			return
